@@ -339,6 +339,10 @@ class StripAnnotations(ast.NodeTransformer):
         return node
 
 
+class AllTogether:
+    """twelve of the transformations below applied one after the other"""
+
+
 class KeywordizeCalls(ast.NodeTransformer):
     """`f(a, b)` becomes `f(x=a, y=b)` for calls of functions of the same module and `self.m(a)` calls of methods of the same class"""
 
@@ -390,6 +394,7 @@ class KeywordizeCalls(ast.NodeTransformer):
 
 
 TRANSFORMS = {
+    'all-together': lambda: AllTogether(),
     'keywordize-calls': lambda: KeywordizeCalls(),
     'add-unrelated': lambda: AddUnrelated(),
     'strip-docstrings': lambda: StripDocstrings(),
@@ -408,7 +413,15 @@ TRANSFORMS = {
 }
 
 
+COMPOSITE = ['rename-locals', 'annotate-locals', 'debug-logging', 'message-via-local', 'return-via-local', 'expand-augassign', 'negate-and-swap',
+             'else-after-jump', 'swap-independent', 'keywordize-calls', 'add-unrelated', 'strip-docstrings']
+
+
 def variant(prog: Program, name: str) -> Program:
+    if name == 'all-together':
+        for n in COMPOSITE:
+            prog = variant(prog, n)
+        return prog
     srcs = {}
     for path, src in prog.sources.items():
         if not path.endswith('.py'):
